@@ -433,9 +433,9 @@ MUTANTS = [
     dict(name="drop-history-push-nOpCount", file="debugger/interpreter.cpp",
          find="        env.nOpCount_history.push_back(env.nOpCount);\n", replace="",
          expect=["R04.2:pop-without-push", "R04.2:restore-without-push", "R04.1:field=nOpCount"]),
-    dict(name="new-step-state-opcode_pos", file="script/interpreter.cpp",
-         find="                case OP_NOP:\n                    break;", replace="                case OP_NOP:\n                    ++opcode_pos;\n                    break;",
-         expect=["R04.1:field=opcode_pos"]),
+    dict(name="new-step-state-not-snapshotted", file="script/interpreter.cpp",
+         find="                case OP_NOP:\n                    break;", replace="                case OP_NOP:\n                    env.allow_disabled_opcodes = !env.allow_disabled_opcodes;\n                    break;",
+         expect=["R04.1:field=allow_disabled_opcodes"]),
     dict(name="mutation-before-refusal", file="debugger/interpreter.cpp",
          find="    if (env.stack_history.size() == 0) {", replace="    env.curr_op_seq--;\n    if (env.stack_history.size() == 0) {",
          expect=["R04.3:RewindScript", "R04.2:counter-1-on-rewind"]),
